@@ -83,6 +83,10 @@ func (h scriptedHandler) Handle(ctx context.Context, received packet.Request) (p
 	switch kind {
 	case "typed":
 		return nil, packet.NewErrorParseTCP(packet.ErrIllegalDataAddress, "no such address")
+	case "typedp":
+		// a typed error that already carries a (foreign) packet: only its code may reach the reply; wrapped once
+		e := &packet.ErrorParseTCP{Message: "busy", Packet: packet.ErrorResponseTCP{TransactionID: 0x0BAD, UnitID: 0xEE, Function: 0x55, Code: 6}}
+		return nil, fmt.Errorf("handler: %w", e)
 	case "generic":
 		return nil, errors.New("database is down")
 	case "panic":
